@@ -50,7 +50,9 @@ HoleSum(hs, i) == IF i > Len(hs) THEN <<2, 0, 0, 0>>
                        IF w[1] = 2 THEN <<2, w[2] + r[2], w[3] + r[3], w[4] + r[4]>> ELSE r
 WPoly(ext, holes) == LET e == WRing(ext) IN
                      IF e[1] # 2 THEN e
-                     ELSE LET h == HoleSum(holes, 1) IN <<2, e[2] - h[2], e[3] - h[3], e[4] - h[4]>>
+                     ELSE LET h == HoleSum(holes, 1) IN
+                          \* holes that eat the whole shell leave no area: the polygon falls back to the outline of its shell
+                          IF e[4] - h[4] = 0 THEN WLine(ext) ELSE <<2, e[2] - h[2], e[3] - h[3], e[4] - h[4]>>
 
 RECURSIVE WC(_)
 WPolyRec(p) == WPoly(p.ext, p.holes)
@@ -80,6 +82,8 @@ Pool == <<
     Poly(Sq(0, 0, 4), <<>>), Poly(Sq(0, 0, 4), << Rev(Sq(1, 1, 1)) >>), Poly(Sq(0, 0, 4), << Sq(1, 1, 2) >>),
     Poly(Sq(0, 0, 4), << Rev(Sq(1, 1, 1)), Sq(2, 2, 1) >>),
     Poly(Rev(<< <<0, 0>>, <<4, 0>>, <<4, 4>>, <<2, 1>>, <<0, 4>>, <<0, 0>> >>), <<>>),
+    Poly(<< <<0, 0>>, <<4, 0>>, <<0, 3>>, <<0, 0>> >>, << Rev(<< <<0, 0>>, <<4, 0>>, <<0, 3>>, <<0, 0>> >>) >>),   \* the hole is the whole shell (3-4-5 triangle): outline
+    Poly(<< <<0, 0>>, <<4, 0>>, <<0, 3>>, <<0, 0>> >>, << << <<0, 0>>, <<4, 0>>, <<0, 3>>, <<0, 0>> >> >>),
     Poly(<< <<0, 0>>, <<2, 0>>, <<4, 0>>, <<0, 0>> >>, <<>>),          \* flat: falls back to its outline
     Poly(<< <<0, 0>>, <<3, 4>>, <<0, 0>> >>, <<>>),                    \* flat, two distinct points
     Poly(<< <<2, 3>>, <<2, 3>>, <<2, 3>>, <<2, 3>> >>, <<>>),          \* a single point
